@@ -596,9 +596,57 @@ def run(ctx):
                 continue
             check_result(ctx, c, entry, opts, as_ir, m2, wf_batch, stats, base=base)
 
+    # validity after EVERY pass of the real pipeline (checker, declared signature): C04 is about the result of the entry points, so an
+    # intermediate model that is invalid but repaired by a later pass (NameFix, OutputFix, the type restoration of optimize_ir) is
+    # counted per pass; an invalidity that survives to the final model is a violation attributed to the FIRST pass that introduced it
+    pstats = collections.Counter()
+    n_pass_cases = [0]
+
+    def per_pass_validity(c, opts, base=None):
+        from harness import c03_passes as P
+        try:
+            recs = P.observe(c.model, opts)
+        except Exception:
+            pstats["optimize_ir-raised(reported by the entry-point check)"] += 1
+            return
+        pstats["pipelines-observed"] += 1
+        first_bad = {}
+        last = None
+        for k, (pname, b, a, modified) in enumerate(recs):
+            if a is None:
+                continue
+            pstats["pass-results-checked"] += 1
+            last = a
+            bad_chk = _checker_fails(a)
+            bad_sig = R.signature_diff(c.model, a) is not None
+            for kind, bad in (("checker", bad_chk), ("signature", bad_sig)):
+                if bad:
+                    pstats[f"intermediate-{kind}-invalid-after:{pname}"] += 1
+                    first_bad.setdefault(kind, (k, pname))
+                else:
+                    if kind in first_bad:
+                        pstats[f"{kind}-invalidity-of:{first_bad[kind][1]}:repaired-by:{pname}"] += 1
+                        del first_bad[kind]
+        if last is not None and not _checker_fails(c.model):
+            for kind, (k, pname) in first_bad.items():
+                still_bad = (lambda mm: _checker_fails(mm)) if kind == "checker" else (lambda mm: R.signature_diff(c.model, mm) is not None)
+                kc = ["C04" + x[3:] for x in K.known_class_by_variant(c, base, "optimize_ir", opts, True, still_bad)] if base is not None else []
+                if kc:
+                    # a known defect of the folder (an equivalent variant of the model that avoids it stays valid), seen per pass
+                    for key in kc:
+                        ctx.violation(key, f"optimize_ir (opts={opts}): {kind}-invalid after {pname}", K.replay_doc(c, "optimize_ir", opts, True, {"pass": pname, "step": k}))
+                    stats["violations"] += 1
+                    continue
+                structural = K.known_structural_class(c.model, last)
+                lost = [o.name for o in last.graph.output if not (o.type.HasField("tensor_type") and o.type.tensor_type.elem_type)]
+                key = ("C04:" + structural) if structural else (f"C04:graph-output-type-lost:{pname}" if lost else f"C04:{kind}-invalid-from-pass:{pname}")
+                ctx.violation(key, f"optimize_ir (opts={opts}): the model is {kind}-invalid after {pname} (step {k}) and stays so until the end of the pipeline",
+                              K.replay_doc(c, "optimize_ir", opts, True, {"pass": pname, "step": k}))
+                stats["violations"] += 1
+
     n_dag = 90 if quick else 560
     import itertools
-    for c in itertools.chain(K.corpus_stream(rng, "C04"), K.alias_stream(rng, 15 if quick else 30),
+    for c in itertools.chain(K.corpus_stream(rng, "C04"), K.alias_stream(rng, 15 if quick else 30), K.pass_family_stream(rng),
                              K.dag_stream(rng, n_dag, overridable_every=3, start=7000)):
         if not isinstance(c, G.Case):
             discards["generator-error: " + c[1][:60]] += 1
@@ -619,6 +667,9 @@ def run(ctx):
                      ("optimize", (2, False, False, True, 4, 262144), False),
                      ("fold_constants", (1, True, True, True, 0, 0), True)]
         one_case(c, plan, base)
+        if not c.kind.startswith("dag") or n_pass_cases[0] < (25 if quick else 120):
+            n_pass_cases[0] += int(c.kind.startswith("dag"))
+            per_pass_validity(c, None if rng.random() < 0.5 else R.option_tuples(rng, 2)[1], base)
         if stats["valid-dag-models"] % 2 == 0:
             check_custom_domain(ctx, c, stats)
         if stats["valid-dag-models"] == 2:
@@ -643,7 +694,9 @@ def run(ctx):
                    f"{stats['wf-evaluated']} results, original well-formed in {stats['wf-original-true']}")
     ctx.obligation("no exception / checker failure / signature change / lost default on valid generated models (known findings excepted)",
                    not ctx.violations, f"{dict(stats)}")
-    ctx.cover(trace=dict(tstats), checks=dict(stats), discarded=dict(discards), exception_kinds=dict(exc_kinds))
+    ctx.obligation("validity after every pass of the real pipeline: no checker / signature invalidity survives to the final model (known findings excepted)",
+                   pstats["pipelines-observed"] > 0, f"{dict(pstats)}")
+    ctx.cover(trace=dict(tstats), checks=dict(stats), per_pass_validity=dict(pstats), discarded=dict(discards), exception_kinds=dict(exc_kinds))
     if ctx.tier == "thorough":
         ctx.coqchk(["Props.C04"])
 
